@@ -208,7 +208,7 @@ func (e *env) createdOf(fam int) (int64, bool) {
 	if err != nil {
 		return 0, false
 	}
-	for try := 0; try < 50; try++ {
+	for try := 0; try < 5000; try++ {
 		t0 := fasttime.UnixNano()
 		st := f.GetState()
 		t1 := fasttime.UnixNano()
